@@ -531,7 +531,7 @@ def _run(ck: Check, probe) -> None:
         md = gen.envelope(gen.root_md([k], 1, [gen.key(3)], 1, version=mi + 1))
         if mi % 2:
             gen.sign_env(md, [gen.key(4)], True)
-        orig = gen.oracle_bytes(md)
+        orig = gen.oracle_bytes(md) if mi % 2 == 0 else proto_json(md)        # every other file as another tool laid it out (valid JSON, not canonical)
         def gcall():
             impl.root_signing.sign_root_metadata_via_gpg(mfn, fpr)
         open(mfn, "wb").write(orig)
